@@ -294,24 +294,46 @@ def make_case(script, stop_at, mode, bo, unbind_answer, traffic=()):
         line += ' ' + ' '.join(['cf:0'] * min(6000, int(stop_at / (bo[0] / 1000.0)) + 20))
     if silent_unbind and fail is None and lat > I + GRACE + 0.001:
         fail = 'wind-down after stop() took %.3f s, more than enquire_link_interval + grace' % lat
+    # the connections of the run: established (open_connection returned) / closed by the ESME, in the order observed
+    cev = [(e[0], 'opened' if e[1] == 'connect' else 'closed') for e in ev if (e[1] == 'connect' and e[3] == 'ok') or e[1] == 'close']
+    if stop_at is None:
+        n_open = len([o for o in script if o[0] not in ('refuse', 'oserror', 'hang')])
+        cev = cev[:2 * n_open]
+    # does stop() find a connection it can still write to, should it fall into the time the tasks of a session that ended by
+    # itself need to end?  (not after a reset by the peer: that connection is closed at the end of the cycle)
+    early = 1
+    if stop_at is not None:
+        last = [e[2] for e in ev if e[1] == 'connect' and e[3] == 'ok' and e[0] <= stop_at]
+        if last and last[-1] < len(script) and script[last[-1]][0] == 'session' and script[last[-1]][3] == 'reset':
+            early = 0
+    cline = 'supc %d %d %s %d %s' % (bo[0] * 10, bo[1], '-' if stop_at is None else str(ms(stop_at)), early,
+                                     ' '.join(model_outcomes(script)))
+    if stop_at is not None:
+        cline += ' ' + ' '.join(['cf:0'] * min(6000, int(stop_at / (bo[0] / 1000.0)) + 20))
+    creal = 'ok ' + ' '.join('%s@%d' % (k, ms(t)) for t, k in cev)
+    extra = None if traffic else Case(cline, creal, ('supc', mode, stop_at is None, len(cev) // 2 if len(cev) < 8 else 8), None, inp)
     if traffic:
         # a message queued while a session winds down wakes the Sender, which then ends by itself instead of being cancelled
         # after the grace period: the cycle is shorter than the model's (whose task-ending time is a parameter).  Runs with
         # application traffic are therefore judged by the predicates alone (never returns without stop(), bounded return after
         # stop(), state and connections closed, back-off law)
         line = real = '# sup-with-traffic ' + json.dumps(inp)[:300]
-    return Case(line, real, sig, fail, inp)
+    return Case(line, real, sig, fail, inp), extra
 
 
 def generate(rng, tier):
     thorough = tier == 'thorough'
     for _ in range(1500 if thorough else 300):
-        yield case_of(rng)
+        c, extra = case_of(rng)
+        yield c
+        if extra is not None:
+            yield extra
 
 
 def replay(inp):
-    return make_case([tuple(o) for o in inp['script']], inp['stop'], inp['mode'], tuple(inp['bo']), inp['unbind_answer'],
-                     [tuple(x) for x in inp.get('traffic', [])])
+    c, extra = make_case([tuple(o) for o in inp['script']], inp['stop'], inp['mode'], tuple(inp['bo']), inp['unbind_answer'],
+                         [tuple(x) for x in inp.get('traffic', [])])
+    return c if (c.fail or extra is None) else c
 
 
 def classify(case):
